@@ -787,13 +787,26 @@ func genC02(r *simrt.Rand, tier string) any {
 		n = 15 + r.Int(45)
 	}
 	genNamespaceOps(r, sc, sh, n, true)
+	if r.Pct(25) {
+		// fault-injecting class: ONE backend error (non-repeating, so that a roll-back can succeed) lands in
+		// some request. The faulted request may fail - then the tree must be exactly as before ("a failed
+		// request leaves the tree unchanged") - or succeed - then its effect must be complete. No lock-step
+		// differential here: the two servers make different numbers of backend calls.
+		sc.Diff = false
+		f := simfs.Fault{Nth: 1 + r.Int(10), Kind: []string{"eio", "eio", "enospc", "eacces"}[r.Int(4)]}
+		f.Op = []string{"Create", "Mkdir", "Symlink", "Remove", "Rename", "Chmod", "Chown", "Lchown", "File.Close", "Lstat", "Stat", "Readlink", "ReadDir", "OpenFile", ""}[r.Int(15)]
+		if f.Op == "Lstat" || f.Op == "" {
+			f.Nth = 1 + r.Int(150)
+		}
+		sc.Faults = append(sc.Faults, f)
+	}
 	return sc
 }
 
 func init() {
 	Register(&Prop{
 		ID: "C02", Level: "exploration",
-		Rule:    "one case = one sequential history of 15-60 LOOKUP/CREATE/MKDIR/SYMLINK/REMOVE/RMDIR/RENAME/READDIR(PLUS)/GETATTR/READLINK ops over a 5-letter alphabet, depth <=3, through handles from earlier replies (including handles of removed/renamed objects, non-directory and invalid names), run in lock-step against two real servers in one bubble: one with the drawn attribute/negative/directory cache configuration and think times on the fake clock, one with caches at minimal TTL and size. Oracles per operation: success/failure equals the POSIX tree model, backend tree == model tree, listings == model children, the two servers' decoded replies are equal (timestamps excluded). non-trivial = >=1 negative LOOKUP later made positive, >=1 READDIR after a mutation of that directory, >=1 REMOVE/RMDIR/RENAME of something previously looked up; distinct by event digest",
+		Rule:    "one case = one sequential history of 15-60 LOOKUP/CREATE/MKDIR/SYMLINK/REMOVE/RMDIR/RENAME/READDIR(PLUS)/GETATTR/READLINK ops over a 5-letter alphabet, depth <=3, through handles from earlier replies (including handles of removed/renamed objects, non-directory and invalid names), run in lock-step against two real servers in one bubble: one with the drawn attribute/negative/directory cache configuration and think times on the fake clock, one with caches at minimal TTL and size. Oracles per operation: success/failure equals the POSIX tree model, backend tree == model tree, listings == model children, the two servers' decoded replies are equal (timestamps excluded); 25% of the cases instead inject one backend error (EIO/ENOSPC/EACCES on create, mkdir, symlink, remove, rename, chmod, chown, close, lstat, ...) into some request of a single server: a faulted request that fails must leave the backend tree exactly as it was, one that succeeds must have its complete effect, and every later request is judged exactly. non-trivial = >=1 negative LOOKUP later made positive, >=1 READDIR after a mutation of that directory, >=1 REMOVE/RMDIR/RENAME of something previously looked up; distinct by event digest",
 		Gen:     genC02,
 		New:     func() any { return &SeqScn{} },
 		Run:     runSeq("C02."),
